@@ -32,7 +32,9 @@ CONSTANTS N,        \* group size
           P,        \* prime field size, P > every member id
           IdSeq,    \* member ids: N distinct elements of 1..P-1
           Coefs,    \* coefficient values the dealers choose from
-          HSet      \* message hashes (non-zero scalars)
+          HSet,     \* message hashes (non-zero scalars)
+          FreshRedeal  \* BOOLEAN: a dealer whose context is rebuilt deals a NEW polynomial (candidate
+                       \* behaviour; the reference re-derives the same one from miner secret and group hash)
 
 (* threshold the node derives for a group of n: ceil(51 n / 100) *)
 K(n) == (51 * n + 99) \div 100
@@ -76,16 +78,18 @@ KSubsets(S, k) == {T \in SUBSET S : Cardinality(T) = k}
 VARIABLES polys,   \* dealer -> coefficient sequence of length Kn
           h,       \* the message hash being signed
           recv,    \* member -> set of dealers whose piece it stored
+          got,     \* member -> (dealer -> the piece <<share, pub>> it stored)
           sk,      \* member -> secret share, None before aggregation
           gpk,     \* member -> group public key as it aggregated it
           coll,    \* arrival order of signature shares at the collector
           rec      \* recovered group signature, None before the threshold
-vars == <<polys, h, recv, sk, gpk, coll, rec>>
+vars == <<polys, h, recv, got, sk, gpk, coll, rec>>
 
 Init ==
   /\ polys \in [Members -> [1..Kn -> Coefs]]
   /\ h \in HSet
   /\ recv = [j \in Members |-> {}]
+  /\ got = [j \in Members |-> <<>>]
   /\ sk = [j \in Members |-> None]
   /\ gpk = [j \in Members |-> None]
   /\ coll = <<>>
@@ -103,11 +107,19 @@ DeliverRc(i, j) == RcOf(recv[j], i, Members)
 Deliver(i, j) ==
   /\ i \notin recv[j]
   /\ recv' = [recv EXCEPT ![j] = @ \cup {i}]
+  /\ got' = [got EXCEPT ![j] = [d \in recv[j] \cup {i} |-> IF d = i THEN Piece(i, j) ELSE got[j][d]]]
   /\ IF recv'[j] = Members
-       THEN /\ sk' = [sk EXCEPT ![j] = SumSeq([d \in Members |-> Piece(d, j)[1]], N)]
-            /\ gpk' = [gpk EXCEPT ![j] = SumSeq([d \in Members |-> Piece(d, j)[2]], N)]
+       THEN /\ sk' = [sk EXCEPT ![j] = SumSeq([d \in Members |-> got'[j][d][1]], N)]
+            /\ gpk' = [gpk EXCEPT ![j] = SumSeq([d \in Members |-> got'[j][d][2]], N)]
        ELSE UNCHANGED <<sk, gpk>>
   /\ UNCHANGED <<polys, h, coll, rec>>
+
+(* the dealer's group context is built again (restart in the middle of the exchange, eviction from the
+   context cache): what it deals is a function of (miner secret, group hash), so the same polynomial --
+   a stuttering step of the reference.  FreshRedeal: a new polynomial (explored as a candidate). *)
+Redeal(i) ==
+  /\ \E q \in (IF FreshRedeal THEN [1..Kn -> Coefs] ELSE {polys[i]}) : polys' = [polys EXCEPT ![i] = q]
+  /\ UNCHANGED <<h, recv, got, sk, gpk, coll, rec>>
 
 SigOf(j) == M(sk[j] * h)
 
@@ -124,9 +136,10 @@ Arrive(j) ==
        THEN \E T \in KSubsets(Range(coll'), Kn) : \E ord \in Perms(T) :
               rec' = Lagrange([i \in 1..Kn |-> IdSeq[ord[i]]], [i \in 1..Kn |-> SigOf(ord[i])])
        ELSE rec' = rec
-  /\ UNCHANGED <<polys, h, recv, sk, gpk>>
+  /\ UNCHANGED <<polys, h, recv, got, sk, gpk>>
 
 Next == \/ \E i, j \in Members : Deliver(i, j)
+        \/ \E i \in Members : Redeal(i)
         \/ \E j \in Members : Arrive(j)
 
 Spec == Init /\ [][Next]_vars
@@ -156,6 +169,13 @@ AnySubsetAnyOrder ==
       Lagrange([i \in 1..Kn |-> IdSeq[ord[i]]], [i \in 1..Kn |-> SigOf(ord[i])]) = GroupSig
 (* and it verifies under the group public key *)
 VerifiesUnderGpk == \A j \in Ready : rec # None => rec = M(gpk[j] * h)
+
+(* all pieces of one dealer that were delivered lie on one polynomial (and carry one public key);
+   hence every member that finished derives the same group public key *)
+PiecesOnOnePolynomial ==
+  \A i \in Members : \E q \in [1..Kn -> Coefs] :
+     \A j \in Members : i \in recv[j] => got[j][i] = <<Eval(q, IdSeq[j]), q[1]>>
+GpkAllEqual == \A a, b \in Ready : gpk[a] = gpk[b]
 
 TypeOK == /\ Len(coll) <= N
           /\ \A j \in Members : recv[j] \subseteq Members
